@@ -262,6 +262,11 @@ func (str *AgileTreeReader) CanUseAgileTree(grpReq *structs.GroupByRequest) (boo
 		if m.MeasureCol == "*" && m.MeasureFunc == sutils.Count {
 			continue // we treat count(*) as just as a bucket count
 		}
+		// A column that is one of the tree's group-by keys is stored as group codes only; the
+		// tree builder has no measure values for it, so its aggregates read from the tree are 0.
+		if utils.SearchStr(m.MeasureCol, str.treeMeta.groupByKeys) {
+			return false, nil
+		}
 		found := false
 		for _, treeMCname := range str.treeMeta.measureColNames {
 			if m.MeasureCol == treeMCname {
